@@ -24,7 +24,7 @@ ASSUMPTIONS = ['single connection per program plus one observer connection']
 REQUIRED_COUNTERS = ('shadow_comparisons', 'savepoints', 'rollbacks', 'rollbacks_past_later_savepoints', 'repeated_rollbacks_to_same_savepoint',
                      'tmpstores_checked_closed', 'second_connection_comparisons')
 
-OPS = ['modify'] * 5 + ['link'] * 6 + ['unlink'] * 2 + ['add'] * 2 + ['savepoint'] * 5 + ['rollback'] * 5 + ['commit'] * 2 + ['abort', 'conflict', 'foreign']
+OPS = ['modify'] * 5 + ['link'] * 6 + ['unlink'] * 2 + ['add'] * 2 + ['savepoint'] * 5 + ['rollback'] * 5 + ['commit'] * 2 + ['abort', 'conflict', 'foreign', 'cache-pressure', 'cache-pressure']
 
 
 def shards(tier, seed):
@@ -44,7 +44,8 @@ def run_case(sh, s, d, case):
     clock.install(clock.FakeClock())
     kind = rnd.choice(['file', 'mapping'])
     st = FSM.FileStorage(os.path.join(d, 'Data.fs')) if kind == 'file' else ZODB.MappingStorage.MappingStorage()
-    db = ZODB.DB(st)
+    # a small object cache in a third of the runs: savepoints then ghostify what they have just stored
+    db = ZODB.DB(st, cache_size=(2 if s % 3 == 0 else 400))
     trace = []
     sw = Shadow(db, rnd, st, trace)
     tmpstores = []
@@ -73,6 +74,8 @@ def run_case(sh, s, d, case):
                 created_since_rb = True
             elif k == 'savepoint':
                 sw.op_savepoint()
+            elif k == 'cache-pressure':
+                sw.op_cache_pressure()
             elif k == 'rollback':
                 before = len(trace)
                 past = sw.counts.get('rollbacks_past_later_savepoints', 0)
